@@ -270,7 +270,10 @@ def write_svg(matrix, matrix_size, out, colormap, scale=1, border=None, xmldecl=
         f.write(svg)
 
 
-_replace_quotes = partial(re.compile(br'(=)"([^"]+)"').sub, br"\1'\2'")
+# Replaces the double quotes of attribute values (which do not contain a
+# single quote) with single quotes; applied to tags, not to character data
+_replace_attr_quotes = partial(re.compile(br'(=)"([^"\']+)"').sub, br"\1'\2'")
+_replace_quotes = partial(re.compile(br'<[^>]+>').sub, lambda m: _replace_attr_quotes(m.group(0)))
 
 
 def as_svg_data_uri(matrix, matrix_size, scale=1, border=None,
